@@ -281,8 +281,11 @@ fn model_products() -> Vec<u64> {
 pub fn run(ctx: &Ctx) -> Rep {
     let mut rep = Rep::new();
     let seed = ctx.seed;
-    let wd = start_watchdog();
     let smoke = ctx.smoke();
+    if smoke {
+        return run_smoke(ctx);
+    }
+    let wd = start_watchdog();
     let us = if smoke { 211 } else { 1 };
 
     // ---- five-slot multisets over {52 cards, blank} -------------------------
@@ -471,6 +474,42 @@ pub fn run(ctx: &Ctx) -> Rep {
         if rate7 == 1 { "all".to_string() } else { format!("a seeded 1-in-{} selection of the", rate7) },
         sweep_hi
     );
+    rep
+}
+
+/// Smoke workload (Miri leg): the same per-case checkers on every multiset of sizes 5..7 over a
+/// five-symbol alphabet {blank, two aces, a deuce, a king} and on a few hundred keys.
+fn run_smoke(_ctx: &Ctx) -> Rep {
+    let mut rep = Rep::new();
+    let mut st = St { rep: Rep::new(), x: mk(), cur: [0; 8], cur_len: 0, cur_what: "" };
+    let alpha: [u8; 5] = [52, 0, 13, 51, 27];
+    fn rec(st: &mut St<X>, alpha: &[u8; 5], cur: &mut Vec<u8>, start: usize, n: usize) {
+        if cur.len() == n {
+            st.rep.distinct += 1;
+            match n {
+                5 => check5(st, &[cur[0], cur[1], cur[2], cur[3], cur[4]]),
+                6 => check6(st, &[cur[0], cur[1], cur[2], cur[3], cur[4], cur[5]]),
+                _ => check7(st, &[cur[0], cur[1], cur[2], cur[3], cur[4], cur[5], cur[6]]),
+            }
+            return;
+        }
+        for i in start..5 {
+            cur.push(alpha[i]);
+            rec(st, alpha, cur, i, n);
+            cur.pop();
+        }
+    }
+    for n in 5..=7 {
+        rec(&mut st, &alpha, &mut Vec::new(), 0, n);
+    }
+    for k in (0..200usize).chain([4887, 104_553_156, 104_553_157, 104_553_158, usize::MAX - 1, usize::MAX]) {
+        check_key(&mut st, k);
+        st.rep.distinct += 1;
+    }
+    rep.merge(st.rep);
+    rep.add("panics_caught", st.x.panics);
+    rep.add("find_in_products.calls", st.x.fip_calls);
+    rep.rule = "smoke: every multiset of sizes 5..7 over {blank, As, Ah, 2c, Kd} through five entry points, ~200 product-search keys".to_string();
     rep
 }
 
